@@ -851,6 +851,7 @@ lists, unknown or doubled extend keys, base fields on expanded units, missing pr
 infinite ratios and NaN differences / accuracies (compared with the model, not judged by the oracle); plus the corpus, units.toml, units/spanish.toml and Converter::default(). \
 non-trivial = the build returned a converter (or panicked); distinct = distinct request lines".into();
 
+    ctx.notes.push("observations that are not findings: (1) the outcome of an extend block can depend on the hash-map order when entries interact (C16_extend_order needs disjoint key sets; the request line carries the real order); (2) two keys of one unit in the same [fractions.unit] table: the later one in hash-map order wins (the property is silent about fractions; compared with the model in the real order)".into());
     // 0. key.trim().is_empty() against the model's table of white space
     {
         let mut n = 0u64;
